@@ -405,6 +405,23 @@ let exec (toks : string list) =
       let name = (match ostr_of_hex p with Some s -> s | None -> []) in
       let ((w1, cfg1), rc) = cfg_setnstr !w cfg name (ostr_of_hex v) (n_of_int (int_of_string i land 0xffffffff)) in
       w := w1; put ci cfg1 sp; std "setstr" ("rc=" ^ zrc rc))
+  | ["setstr_self"; c; p; o; i] -> with_ctx "setstr_self" c (fun ci cfg sp ->
+      (* the value's own suffix written back to its slot *)
+      let name = (match ostr_of_hex p with Some s -> s | None -> []) in
+      let idx = int_of_string i land 0xffffffff and off = int_of_string o in
+      let (r, ds) = cfg_getopt cfg name in
+      w := add_diags !w ds;
+      let cur = (match r with
+          | None -> None
+          | Some r -> (match get_opt cfg r with
+              | Some op when o_kind op = KStr -> (match List.nth_opt (o_vals op) idx with Some (VStr (Some s)) -> Some s | _ -> None)
+              | _ -> None)) in
+      (match cur with
+       | Some s when off <= List.length s ->
+         let rec drop n l = if n = 0 then l else (match l with [] -> [] | _ :: t -> drop (n - 1) t) in
+         let ((w1, cfg1), rc) = cfg_setnstr !w cfg name (Some (drop off s)) (n_of_int idx) in
+         w := w1; put ci cfg1 sp; std "setstr_self" ("rc=" ^ zrc rc)
+       | _ -> std "setstr_self" "rc=-2"))
   | (("setlist" | "addlist") as cmd) :: c :: p :: kind :: vs -> with_ctx cmd c (fun ci cfg sp ->
       let name = (match ostr_of_hex p with Some s -> s | None -> []) in
       let vals = List.map (value_of_kind kind) vs in
